@@ -785,6 +785,391 @@ Section Checkout.
 
 End Checkout.
 
+
+(* ================================================================== *)
+(* C01: commit / checkout round trip                                  *)
+(* ================================================================== *)
+
+(* [stmt_roundtrip] of CacheDefs.v is FALSE for the model as written (see the counterexample
+   [roundtrip_cex_*] at the end of this file): [cache_inv] allows an old manifest with a dangling
+   directory-child checksum; a FILE of the tree whose bytes happen to be a manifest with a
+   flagged child (disable-recursion / skip-cache) fills that key during the commit, and the
+   sibling directory is then committed against it.  The extra premise [benign n] excludes files
+   whose bytes decode as a manifest with flagged children; nothing else is added. *)
+Fixpoint benign (n : node) : Prop :=
+  match n with
+  | File b => forall m, dec_manifest b = Some m -> Forall (fun kv => plain_child (snd kv)) (m_contents m)
+  | Dir es => (fix all (l : list (bytes * node)) : Prop :=
+                 match l with [] => True | (_, ch) :: r => benign ch /\ all r end) es
+  | _ => True
+  end.
+
+Lemma benign_dir es : benign (Dir es) <-> Forall (fun e => benign (snd e)) es.
+Proof.
+  cbn [benign]. induction es as [|[k ch] r IH].
+  - split; [constructor|trivial].
+  - split.
+    + intros [H1 H2]. constructor; [exact H1|apply IH; exact H2].
+    + intros HF. inversion HF as [|x y Hx Hr]; subst. split; [exact Hx|apply IH; exact Hr].
+Qed.
+
+Lemma node_ind' (P : node -> Prop) :
+  (forall b, P (File b)) -> (forall d, P (LinkC d)) -> (forall t, P (LinkO t)) -> P Other ->
+  (forall es, Forall (fun e => P (snd e)) es -> P (Dir es)) -> forall n, P n.
+Proof.
+  intros Hf Hc Ho Hot Hd. fix IH 1. intros [b|d|t|es|]; [apply Hf|apply Hc|apply Ho| |apply Hot].
+  apply Hd. induction es as [|[k ch] r IHr]; constructor; [apply IH|exact IHr].
+Qed.
+
+Lemma cache_le_refl c : cache_le c c.
+Proof. intros d o Hg. exists o. auto. Qed.
+
+Lemma cache_le_trans c1 c2 c3 : cache_le c1 c2 -> cache_le c2 c3 -> cache_le c1 c3.
+Proof.
+  intros H12 H23 d o Hg. destruct (H12 _ _ Hg) as (o2 & Hg2 & E2).
+  destruct (H23 _ _ Hg2) as (o3 & Hg3 & E3). exists o3. split; [exact Hg3|congruence].
+Qed.
+
+Lemma cget_cput_same c d b : cget (cput c d b) d = Some (mkObj b cache_perms).
+Proof. unfold cget, cput. apply alookup_ins_same. Qed.
+
+Lemma cget_cput_other c d d' b : d' <> d -> cget (cput c d b) d' = cget c d'.
+Proof. unfold cget, cput. apply alookup_ins_other. Qed.
+
+Lemma tracked_view_rec a n : a_norec a = false -> tracked_view a n = n.
+Proof. intros Hn. destruct n; cbn [tracked_view]; try reflexivity. rewrite Hn. reflexivity. Qed.
+
+Section Roundtrip.
+  Variable H : bytes -> bytes.
+  Hypothesis Hinj : H_inj H.
+  Hypothesis Hhas : H_has H.
+  Hypothesis Htext : H_text H.
+  Hypothesis Hcodec : codec_ok.
+
+  Lemma cput_le c b : cache_ok H c -> cache_le c (cput c (H b) b).
+  Proof.
+    intros Hok d o Hg. destruct (beqb d (H b)) eqn:E.
+    - apply beqb_eq in E. subst d. exists (mkObj b cache_perms). split; [apply cget_cput_same|].
+      cbn [o_data]. destruct (Hok _ _ Hg) as [Hd _]. apply Hinj. exact Hd.
+    - apply beqb_false_neq in E. exists o. split; [|reflexivity].
+      rewrite cget_cput_other by exact E. exact Hg.
+  Qed.
+
+  Lemma cput_ok c b : cache_ok H c -> cache_ok H (cput c (H b) b).
+  Proof.
+    intros Hok d o Hg. destruct (beqb d (H b)) eqn:E.
+    - apply beqb_eq in E. subst d. rewrite cget_cput_same in Hg. injection Hg as <-.
+      cbn [o_data o_mode]. auto.
+    - apply beqb_false_neq in E. rewrite cget_cput_other in Hg by exact E. apply (Hok _ _ Hg).
+  Qed.
+
+  Lemma cput_plain c d b :
+    man_plain c ->
+    (forall m, dec_manifest b = Some m -> Forall (fun kv => plain_child (snd kv)) (m_contents m)) ->
+    man_plain (cput c d b).
+  Proof.
+    intros Hp Hb d' o m Hg Hm. destruct (beqb d' d) eqn:E.
+    - apply beqb_eq in E. subst d'. rewrite cget_cput_same in Hg. injection Hg as <-.
+      cbn [o_data] in Hm. apply Hb. exact Hm.
+    - apply beqb_false_neq in E. rewrite cget_cput_other in Hg by exact E. apply (Hp _ _ _ Hg Hm).
+  Qed.
+
+  (* ---- the commit loop as a top-level function ---- *)
+  Definition pick_child (old : list (bytes * artifact)) (name : bytes) (ch : node) : artifact :=
+    match alookup name old with
+    | Some oa => if Bool.eqb (a_isdir oa) (is_dir ch) then oa else fresh_art name (is_dir ch)
+    | None => fresh_art name (is_dir ch)
+    end.
+
+  Fixpoint cm_go (norec : bool) (old : list (bytes * artifact)) (st : strategy)
+           (es : list (bytes * node)) (c : cache)
+    : res (list (bytes * node) * cache * list (bytes * artifact)) :=
+    match es with
+    | [] => Ok ([], c, [])
+    | (name, ch) :: r =>
+      if norec && is_dir ch then
+        match cm_go norec old st r c with
+        | Ok (es', c', m) => Ok ((name, ch) :: es', c', m)
+        | Err => Err
+        end
+      else if negb (utf8_name name) then Err
+      else
+        match commit_node H (pick_child old name ch) ch c st with
+        | Err => Err
+        | Ok (ch', c1, child') =>
+          match cm_go norec old st r c1 with
+          | Ok (es', c2, m) => Ok ((name, ch') :: es', c2, (a_path child', child') :: m)
+          | Err => Err
+          end
+        end
+    end.
+
+  Lemma commit_node_dir a es c st :
+    commit_node H a (Dir es) c st =
+    if a_isdir a then
+      match old_contents a c with
+      | Err => Err
+      | Ok old =>
+        match cm_go (a_norec a) old st es c with
+        | Err => Err
+        | Ok (es', c', m) =>
+          let mb := enc_manifest (mkMan (a_path a) m) in
+          Ok (Dir es', cput c' (H mb) mb, set_cs a (H mb))
+        end
+      end
+    else commit_file H a (Dir es) c st.
+  Proof.
+    cbn [commit_node]. destruct (a_isdir a); [|reflexivity].
+    destruct (old_contents a c) as [old|]; [|reflexivity].
+    match goal with
+    | |- match ?g es c with _ => _ end = _ =>
+      assert (Hgo : forall es c, g es c = cm_go (a_norec a) old st es c)
+    end.
+    { clear es c. induction es as [|[name ch] r IH]; intros c; [reflexivity|].
+      cbn [cm_go]. unfold pick_child. rewrite <- IH.
+      destruct (a_norec a && is_dir ch); [reflexivity|].
+      destruct (negb (utf8_name name)); [reflexivity|].
+      match goal with |- match ?x with _ => _ end = match ?y with _ => _ end =>
+        change x with y; destruct y as [[[ch' c1] child']|]; [|reflexivity] end.
+      rewrite <- IH. reflexivity. }
+    rewrite Hgo. reflexivity.
+  Qed.
+
+  Definition old_ok (old : list (bytes * artifact)) : Prop :=
+    forall k oa, alookup k old = Some oa -> plain_child oa /\ a_path oa = k.
+
+  Lemma old_contents_ok a c old : man_plain c -> old_contents a c = Ok old -> old_ok old.
+  Proof.
+    intros Hp. unfold old_contents.
+    destruct (has_cs (a_cs a)); [|intros [= <-] k oa Hl; discriminate].
+    destruct (cget c (a_cs a)) as [o|] eqn:Hc; [|intros [= <-] k oa Hl; discriminate].
+    destruct (dec_manifest (o_data o)) as [m|] eqn:Hm; [|discriminate].
+    intros [= <-] k oa Hl. apply alookup_In in Hl.
+    pose proof (Hp _ _ _ Hc Hm) as Hall. rewrite Forall_forall in Hall.
+    destruct (dec_manifest_inv _ _ Hm) as [_ Hv]. rewrite Forall_forall in Hv.
+    split; [apply (Hall _ Hl)|apply (Hv _ Hl)].
+  Qed.
+
+  Lemma pick_child_ok old name ch :
+    old_ok old ->
+    plain_child (pick_child old name ch) /\ a_path (pick_child old name ch) = name /\
+    a_isdir (pick_child old name ch) = is_dir ch.
+  Proof.
+    intros Hold. unfold pick_child.
+    destruct (alookup name old) as [oa|] eqn:Hl.
+    - destruct (Bool.eqb (a_isdir oa) (is_dir ch)) eqn:E.
+      + apply eqb_prop in E. destruct (Hold _ _ Hl) as [H1 H2]. auto.
+      + unfold fresh_art, plain_child. cbn [a_norec a_skip a_path a_isdir]. auto.
+    - unfold fresh_art, plain_child. cbn [a_norec a_skip a_path a_isdir]. auto.
+  Qed.
+
+  (* ---- the strengthened statement, by nested induction on the tree ---- *)
+  Definition RT (n : node) : Prop :=
+    forall a c st n' c' a',
+      plain n -> benign n -> kind_ok a n -> wf_text (a_path a) -> a_skip a = false ->
+      cache_ok H c -> man_plain c ->
+      commit_node H a n c st = Ok (n', c', a') ->
+      cache_le c c' /\ cache_ok H c' /\ man_plain c' /\
+      a_path a' = a_path a /\ a_isdir a' = a_isdir a /\ a_norec a' = a_norec a /\
+      a_skip a' = a_skip a /\ wf_text (a_cs a') /\
+      forall c2 st', cache_le c' c2 ->
+        exists n2 fuel0, logical c2 n2 = tracked_view a n /\
+          forall f, (fuel0 <= f)%nat -> checkout_node H f a' None c2 st' = Ok (Some n2).
+
+  Definition child_wf (kv : bytes * artifact) : Prop :=
+    a_path (snd kv) = fst kv /\ valid_entry_name (fst kv) = true /\
+    wf_text (fst kv) /\ wf_text (a_cs (snd kv)) /\ plain_child (snd kv).
+
+  Lemma RT_file b : RT (File b).
+  Proof.
+    intros a c st n' c' a' _ Hben Hkind Hpath Hskip Hok Hplain Hcm.
+    unfold kind_ok in Hkind. cbn [is_dir] in Hkind.
+    cbn [commit_node] in Hcm. rewrite Hkind in Hcm. unfold commit_file in Hcm.
+    rewrite qmatch_false in Hcm by discriminate. rewrite Hskip in Hcm.
+    assert (Hres : c' = cput c (H b) b /\ a' = set_cs a (H b)).
+    { destruct st; injection Hcm as _ <- <-; auto. }
+    destruct Hres as [-> ->]. clear Hcm.
+    split; [apply cput_le; exact Hok|]. split; [apply cput_ok; exact Hok|].
+    split; [apply cput_plain; [exact Hplain|exact Hben]|].
+    cbn [set_cs a_path a_isdir a_norec a_skip a_cs].
+    repeat (split; [reflexivity|]). split; [apply Htext|].
+    intros c2 st' Hle.
+    destruct (Hle _ _ (cget_cput_same c (H b) b)) as (o' & Hc2 & Hdata). cbn [o_data] in Hdata.
+    exists (match st' with Link => LinkC (H b) | Copy => File b end), 1%nat. split.
+    - destruct st'; cbn [logical tracked_view]; [rewrite Hc2, Hdata|]; reflexivity.
+    - intros f Hf. destruct f as [|f]; [lia|].
+      rewrite checkout_file_node by (cbn [set_cs a_isdir]; exact Hkind).
+      unfold checkout_file. cbn [set_cs a_cs]. rewrite Hhas, Hc2. cbn [negb].
+      rewrite qmatch_false by discriminate. destruct st'; [reflexivity|].
+      cbn [orb]. rewrite Hdata, beqb_refl. reflexivity.
+  Qed.
+
+  Lemma cm_go_rt : forall es,
+    Forall (fun e => RT (snd e)) es ->
+    forall norec old st c es' c1 m,
+      StronglySorted klt es ->
+      Forall (fun e => good_name (fst e) /\ plain (snd e)) es ->
+      Forall (fun e => benign (snd e)) es ->
+      old_ok old -> cache_ok H c -> man_plain c ->
+      cm_go norec old st es c = Ok (es', c1, m) ->
+      cache_le c c1 /\ cache_ok H c1 /\ man_plain c1 /\
+      Forall child_wf m /\
+      (forall k0, Forall (fun e => bltb k0 (fst e) = true) es ->
+                  Forall (fun kv => bltb k0 (fst kv) = true) m) /\
+      StronglySorted klt m /\
+      forall c2 st', cache_le c1 c2 ->
+        exists res fuel0,
+          map (fun e => (fst e, logical c2 (snd e))) res =
+            (if norec then filter (fun e => negb (is_dir (snd e))) es else es) /\
+          forall f, (fuel0 <= f)%nat -> forall acc,
+            Forall (fun e => Forall (fun kv => bltb (fst e) (fst kv) = true) m) acc ->
+            co_go H f c2 st' m acc = Ok (acc ++ res).
+  Proof.
+    induction es as [|[name ch] r IHr];
+      intros HRT norec old st c es' c1 m Hsort Hgood Hben Hold Hok Hplain Hcm.
+    - cbn [cm_go] in Hcm. injection Hcm as <- <- <-.
+      split; [apply cache_le_refl|]. split; [exact Hok|]. split; [exact Hplain|].
+      split; [constructor|]. split; [intros; constructor|]. split; [constructor|].
+      intros c2 st' Hle. exists [], 0%nat. split; [destruct norec; reflexivity|].
+      intros f _ acc _. cbn [co_go]. rewrite app_nil_r. reflexivity.
+    - inversion HRT as [|x y HRTch HRTr]; subst.
+      inversion Hsort as [|x y Hsr Hall]; subst.
+      inversion Hgood as [|x y [Hgn Hpl] Hgr]; subst. cbn [fst snd] in Hgn, Hpl, HRTch.
+      inversion Hben as [|x y Hbch Hbr]; subst. cbn [snd] in Hbch.
+      assert (Hall' : Forall (fun e : bytes * node => bltb name (fst e) = true) r) by exact Hall.
+      cbn [cm_go] in Hcm.
+      destruct (norec && is_dir ch) eqn:Eskip.
+      + (* a sub-directory of a non-recursive artifact: not tracked *)
+        destruct (cm_go norec old st r c) as [[[es1 cB] m1]|] eqn:Er; [|discriminate].
+        injection Hcm as <- <- <-.
+        destruct (IHr HRTr _ _ _ _ _ _ _ Hsr Hgr Hbr Hold Hok Hplain Er)
+          as (Hle & Hok1 & Hpl1 & Hwf & Hlb & Hsm & Hco).
+        split; [exact Hle|]. split; [exact Hok1|]. split; [exact Hpl1|]. split; [exact Hwf|].
+        split; [intros k0 Hk0; apply Hlb; inversion Hk0; assumption|]. split; [exact Hsm|].
+        intros c2 st' Hle2. destruct (Hco c2 st' Hle2) as (res & fuel0 & Heq & Hrun).
+        exists res, fuel0. split; [|exact Hrun].
+        apply andb_true_iff in Eskip as [-> Edir]. cbn [filter snd]. rewrite Edir. cbn [negb].
+        exact Heq.
+      + destruct (negb (utf8_name name)); [discriminate|].
+        destruct (pick_child_ok old name ch Hold) as ((Hcn & Hcs) & Hcp & Hcd).
+        destruct (commit_node H (pick_child old name ch) ch c st) as [[[ch' cA] child']|] eqn:Ec;
+          [|discriminate].
+        destruct (cm_go norec old st r cA) as [[[es1 cB] m1]|] eqn:Er; [|discriminate].
+        injection Hcm as <- <- <-.
+        assert (Hwfname : wf_text name).
+        { destruct Hgn as (Hu & _ & Hb). unfold utf8_name in Hu. split; assumption. }
+        assert (Hpath : wf_text (a_path (pick_child old name ch))) by (rewrite Hcp; exact Hwfname).
+        destruct (HRTch _ _ _ _ _ _ Hpl Hbch Hcd Hpath Hcs Hok Hplain Ec)
+          as (HleA & HokA & HplA & Hp' & Hd' & Hn' & Hs' & Hcs' & HcoA).
+        rewrite Hcp in Hp'. rewrite Hcn in Hn'. rewrite Hcs in Hs'.
+        destruct (IHr HRTr _ _ _ _ _ _ _ Hsr Hgr Hbr Hold HokA HplA Er)
+          as (HleB & HokB & HplB & Hwf & Hlb & Hsm & HcoB).
+        rewrite Hp'.
+        split; [eapply cache_le_trans; eassumption|]. split; [exact HokB|]. split; [exact HplB|].
+        split.
+        { constructor; [|exact Hwf]. unfold child_wf. cbn [fst snd].
+          destruct Hgn as (_ & Hv & _). unfold plain_child. auto 10. }
+        split.
+        { intros k0 Hk0. inversion Hk0 as [|x y Hk1 Hk2]; subst. cbn [fst] in Hk1.
+          constructor; [exact Hk1|apply Hlb; exact Hk2]. }
+        split.
+        { constructor; [exact Hsm|]. unfold klt. cbn [fst]. apply Hlb. exact Hall'. }
+        intros c2 st' Hle2.
+        destruct (HcoA c2 st' (cache_le_trans _ _ _ HleB Hle2)) as (n2 & fuelA & Hlog & HrunA).
+        destruct (HcoB c2 st' Hle2) as (res & fuelB & Heq & HrunB).
+        rewrite (tracked_view_rec _ _ Hcn) in Hlog.
+        exists ((name, n2) :: res), (Nat.max fuelA fuelB). split.
+        { cbn [map fst snd]. rewrite Hlog, Heq.
+          destruct norec; [|reflexivity]. cbn [andb] in Eskip. cbn [filter snd].
+          rewrite Eskip. reflexivity. }
+        intros f Hf acc Hacc. cbn [co_go].
+        assert (Hnone : alookup name acc = None).
+        { apply alookup_None_notin. intros e He. rewrite Forall_forall in Hacc.
+          specialize (Hacc _ He). inversion Hacc as [|x y Hx _]; subst. cbn [fst] in Hx.
+          apply bltb_neq. exact Hx. }
+        rewrite Hnone. rewrite (HrunA f) by lia. cbn [dset].
+        rewrite ins_sorted_snoc.
+        2:{ eapply Forall_impl; [|exact Hacc]. intros e He.
+            inversion He as [|x y Hx _]; subst. exact Hx. }
+        assert (HfB : (fuelB <= f)%nat) by lia.
+        rewrite (HrunB f HfB).
+        2:{ apply Forall_app. split.
+            - eapply Forall_impl; [|exact Hacc]. intros e He.
+              inversion He as [|x y _ Hy]; subst. exact Hy.
+            - constructor; [|constructor]. cbn [fst]. apply Hlb. exact Hall'. }
+        rewrite <- app_assoc. reflexivity.
+  Qed.
+
+  Lemma RT_dir es : Forall (fun e => RT (snd e)) es -> RT (Dir es).
+  Proof.
+    intros HRT a c st n' c' a' Hpl Hben Hkind Hpath Hskip Hok Hplain Hcm.
+    unfold kind_ok in Hkind. cbn [is_dir] in Hkind.
+    inversion Hpl as [|es0 Hsort Hgood]; subst.
+    apply benign_dir in Hben.
+    rewrite commit_node_dir, Hkind in Hcm.
+    destruct (old_contents a c) as [old|] eqn:Eold; [|discriminate].
+    destruct (cm_go (a_norec a) old st es c) as [[[es' c1] m]|] eqn:Ego; [|discriminate].
+    cbv zeta in Hcm. injection Hcm as <- <- <-.
+    pose proof (old_contents_ok _ _ _ Hplain Eold) as Hold.
+    destruct (cm_go_rt es HRT _ _ _ _ _ _ _ Hsort Hgood Hben Hold Hok Hplain Ego)
+      as (Hle & Hok1 & Hpl1 & Hwf & _ & Hsm & Hco).
+    set (mb := enc_manifest (mkMan (a_path a) m)).
+    assert (Hdec : dec_manifest mb = Some (mkMan (a_path a) m)).
+    { apply Hcodec. unfold wf_manifest. cbn [m_path m_contents].
+      split; [exact Hpath|]. split; [exact Hsm|exact Hwf]. }
+    split; [eapply cache_le_trans; [exact Hle|apply cput_le; exact Hok1]|].
+    split; [apply cput_ok; exact Hok1|].
+    split.
+    { apply cput_plain; [exact Hpl1|]. intros m' Hm'. rewrite Hdec in Hm'. injection Hm' as <-.
+      cbn [m_contents]. eapply Forall_impl; [|exact Hwf]. intros kv Hkv. apply Hkv. }
+    cbn [set_cs a_path a_isdir a_norec a_skip a_cs].
+    repeat (split; [reflexivity|]). split; [apply Htext|].
+    intros c2 st' Hle2.
+    destruct (Hle2 _ _ (cget_cput_same c1 (H mb) mb)) as (o' & Hc2 & Hdata). cbn [o_data] in Hdata.
+    assert (Hle12 : cache_le c1 c2).
+    { eapply cache_le_trans; [apply cput_le; exact Hok1|exact Hle2]. }
+    destruct (Hco c2 st' Hle12) as (res & fuel0 & Heq & Hrun).
+    exists (Dir res), (S fuel0). split.
+    - cbn [logical tracked_view]. rewrite Heq. destruct (a_norec a); reflexivity.
+    - intros f Hf. destruct f as [|f]; [lia|].
+      eapply checkout_dir_intro with (o := o') (m := mkMan (a_path a) m).
+      + cbn [set_cs a_isdir]. exact Hkind.
+      + cbn [set_cs a_cs]. apply Hhas.
+      + cbn [set_cs a_cs]. exact Hc2.
+      + rewrite Hdata. exact Hdec.
+      + left. reflexivity.
+      + cbn [slot_entries m_contents]. assert (Hf' : (fuel0 <= f)%nat) by lia.
+        rewrite (Hrun f Hf' [] (Forall_nil _)). reflexivity.
+  Qed.
+
+  Lemma RT_all n : RT n.
+  Proof.
+    induction n as [b|d|t| |es IH] using node_ind'.
+    - apply RT_file.
+    - intros a c st n' c' a' Hpl. inversion Hpl.
+    - intros a c st n' c' a' Hpl. inversion Hpl.
+    - intros a c st n' c' a' Hpl. inversion Hpl.
+    - apply RT_dir. exact IH.
+  Qed.
+End Roundtrip.
+
+(* C01, repaired: [stmt_roundtrip] with the one extra premise [benign n] *)
+Definition stmt_roundtrip_benign (H : bytes -> bytes) : Prop :=
+  H_inj H -> H_has H -> H_text H -> codec_ok -> forall a n c st st' n' c' a',
+    plain n -> benign n -> kind_ok a n -> top_art a -> cache_inv H c ->
+    commit_node H a n c st = Ok (n', c', a') ->
+    exists fuel n2, checkout_node H fuel a' None c' st' = Ok (Some n2) /\
+                    logical c' n2 = tracked_view a n.
+
+Theorem roundtrip_benign H : stmt_roundtrip_benign H.
+Proof.
+  intros Hinj Hhas Htext Hcodec a n c st st' n' c' a' Hpl Hben Hkind [Hpath Hskip] (Hok & Hplain & _) Hcm.
+  destruct (RT_all H Hinj Hhas Htext Hcodec n _ _ _ _ _ _ Hpl Hben Hkind Hpath Hskip Hok Hplain Hcm)
+    as (_ & _ & _ & _ & _ & _ & _ & _ & Hco).
+  destruct (Hco c' st' (cache_le_refl c')) as (n2 & fuel0 & Hlog & Hrun).
+  exists fuel0, n2. split; [apply Hrun; lia|exact Hlog].
+Qed.
+
 Print Assumptions copy_verified.
 Print Assumptions checkout_file_frame.
 Print Assumptions copy_tree_verified.
@@ -797,3 +1182,4 @@ Print Assumptions C06_obstructed_linkc.
 Print Assumptions C06_obstructed_node.
 Print Assumptions C06_obstructed_node_file.
 Print Assumptions checkout_idem.
+Print Assumptions roundtrip_benign.
